@@ -170,6 +170,9 @@ func (s *sim) register(kind string) {
 	case "prefixless": // signature over the bare key without the type prefix
 		key = cand.Pub
 		sig = w.Sign(key[:], w.Temp)
+	case "zero-key": // the all-zero key, correctly signed by the temporary key: a registration like any other
+		key = glow.PublicKey{}
+		sig = w.Sign((&server.GCARegistration{GCAKey: key}).SigningBytes(), w.Temp)
 	}
 	ob := w.Register(key, sig, kind)
 	after := w.S.VerifSnapshot()
@@ -187,11 +190,14 @@ func (s *sim) register(kind string) {
 			s.fail("accepted registration did not install the submitted key", "c07-key-not-installed")
 		}
 		s.regDone, s.regKey = true, key
-		if key != s.a.GCA.Pub { // another candidate won: it becomes the GCA of this history
+		if key != s.a.GCA.Pub && kind != "zero-key" { // another candidate won: it becomes the GCA of this history
 			s.a.GCA = cand
 		}
 	} else if viewJSON(before, true) != viewJSON(after, true) {
 		s.fail("a refused registration changed the server state ("+kind+")", "c07-refused-changed")
+	}
+	if !accepted && !s.regDone && (kind == "valid" || kind == "other-valid" || kind == "zero-key") && ob != "ObsPanic" {
+		s.fail("a registration correctly signed by the temporary key is refused although no registration was ever accepted on this server ("+kind+")", "c07-rightful-registration-refused")
 	}
 	if before.GCAAvailable && (after.GCAKey != before.GCAKey || !after.GCAAvailable) {
 		s.fail("the registered GCA key was replaced ("+kind+")", "c07-key-replaced")
